@@ -271,7 +271,8 @@ def cron_strategy():
 
     minute = st.one_of(st.just("*"), st.sampled_from(["*/2", "*/5", "*/15", "0", "7", "0,30", "5-10", "0-20/5", "3,9,44", "59"]))
     hour = st.one_of(st.just("*"), st.sampled_from(["*/6", "0", "12", "9-17", "0,12"]))
-    return st.tuples(minute, hour).map(lambda mh: f"{mh[0]} {mh[1]} * * *")
+    daily = st.sampled_from(["0 12 * * *", "59 11 * * *", "1 12 * * *", "0 0 * * *"])
+    return st.one_of(st.tuples(minute, hour).map(lambda mh: f"{mh[0]} {mh[1]} * * *"), daily)
 
 
 def cron_shard(kind: str, seed: int, examples: int, known: list[str]) -> dict:
@@ -283,7 +284,7 @@ def cron_shard(kind: str, seed: int, examples: int, known: list[str]) -> dict:
     rep = Reporter(part, known)
     shared: dict[str, Any] = {}
     base = datetime(2024, 3, 10, 11, 58, 0, tzinfo=UTC)
-    gaps = st.lists(st.one_of(st.sampled_from([0.5, 1, 5, 9, 10, 11, 29, 30, 31, 45, 59, 60, 61, 90, 120, 300, 3600]), st.floats(0.001, 200, allow_nan=False)), min_size=1, max_size=14)
+    gaps = st.lists(st.one_of(st.sampled_from([0.5, 1, 5, 9, 10, 11, 29, 30, 31, 45, 59, 60, 61, 90, 120, 300, 3600, 86400 - 20, 86400, 86400 + 7, 86400 + 40, 2 * 86400 + 15]), st.floats(0.001, 200, allow_nan=False)), min_size=1, max_size=14)
 
     @hypothesis.seed(seed)
     @make_settings(examples)
@@ -350,7 +351,7 @@ def cron_shard(kind: str, seed: int, examples: int, known: list[str]) -> dict:
 
 # ---------------------------------------------------------------------------- races
 
-RACE_SCENARIOS = ["event-two-loops", "event-loops-and-reporter", "two-events-two-loops"]
+RACE_SCENARIOS = ["event-two-loops", "event-loops-and-reporter", "two-events-two-loops", "reregister-vs-loop"]
 
 
 def run_race(kind: str, scenario: str, policy: sched.Policy, clock: Any, shared: dict) -> tuple[sched.Scheduler, dict]:
@@ -384,8 +385,19 @@ def run_race(kind: str, scenario: str, policy: sched.Policy, clock: Any, shared:
 
     tf = sched.trace_file_set("pynenc/trigger/mem_trigger.py", "pynenc/trigger/base_trigger.py") if kind == "mem" else set()
     s = sched.Scheduler(policy, clock=clock, trace_files=tf, max_steps=80_000)
+    def reregister():
+        # another runner starting up registers the same task triggers again (clean + register)
+        context.set_runner_context(app.app_id, apps.rctx("STARTUP"))
+        from pynenc.trigger.trigger_builder import TriggerBuilder
+
+        b = TriggerBuilder().on_event("e1").with_args_from_event(tasks.args_from_event)
+        app.trigger.register_task_triggers(t["T"], [b])
+
     s.spawn("loopA", loop("LA"))
-    s.spawn("loopB", loop("LB"))
+    if scenario == "reregister-vs-loop":
+        s.spawn("startup", reregister)
+    else:
+        s.spawn("loopB", loop("LB"))
     if scenario == "event-loops-and-reporter":
         s.spawn("reporter", reporter)
     s.run()
@@ -457,9 +469,9 @@ def run(ctx: Ctx) -> None:
     jobs = []
     for kind in ("mem", "sqlite"):
         for c in range(len(CONFIGS)):
-            jobs.append(("sem_shard", (kind, c, ctx.seed * 100 + c, (25 if kind == "mem" else 10) if q else 600, known)))
+            jobs.append(("sem_shard", (kind, c, ctx.seed * 100 + c, (80 if kind == "mem" else 30) if q else 1000, known)))
         for k in range(2):
-            jobs.append(("cron_shard", (kind, ctx.seed * 100 + 50 + k, (60 if kind == "mem" else 25) if q else 2500, known)))
+            jobs.append(("cron_shard", (kind, ctx.seed * 100 + 50 + k, (200 if kind == "mem" else 80) if q else 4000, known)))
         for sc in RACE_SCENARIOS:
             jobs.append(("race_shard", (kind, sc, 1 if q else 2, 300 if q else 5000, known)))
     merge_parts(ctx, pmap(_dispatch, jobs))
